@@ -144,9 +144,11 @@ def _(cx):
 
 
 @contract("gjk_jolt.closest_point_triangle/degenerate", fn="distance3d.gjk._gjk_jolt.closest_point_triangle", props=["C18", "C01"],
-          deps=["distance3d.gjk._gjk_jolt.closest_point_line", "distance3d.gjk._gjk_jolt.get_barycentric_coordinates_line"])
+          deps=["distance3d.gjk._gjk_jolt.closest_point_line", "distance3d.gjk._gjk_jolt.get_barycentric_coordinates_line"],
+          tags=["native-only"])
 def _(cx):
-    """3 exactly collinear / coincident points (|n|^2 = 0): minimum-norm point of their hull via the three edges"""
+    """BOUNDED (run-time contract on the real code only; the symbolic proof of the collinear case did not discharge within budget):
+    3 exactly collinear / coincident points (|n|^2 = 0): minimum-norm point of their hull via the three edges"""
     _triangle(cx, False)
 
 
@@ -162,3 +164,31 @@ def _(cx):
     cx.assume(cx.all([dot(w, p) == 0, dot(w, q) == 0, dot(w, n) == 0, sq(n) > 0]), "lemma:premises")
     cx.prove("w_is_zero", cx.eq(sq(w), 0.0))
     cx.cover("end")
+
+
+@contract("gjk_jolt.closest_point_tetrahedron", fn="distance3d.gjk._gjk_jolt.closest_point_tetrahedron", props=["C18", "C01"],
+          deps=["distance3d.gjk._gjk_jolt.origin_outside_of_tetrahedron_planes", "distance3d.gjk._gjk_jolt.closest_point_triangle"],
+          tags=["native-only"])
+def _(cx):
+    """BOUNDED (run-time contract on the real code; 'best visible face' did not discharge in Gram form, design probe t6):
+    4 points: result is the minimum-norm point of the tetrahedron (KKT on all 4 vertices), bit set 15 means the origin is inside"""
+    f = cx.target()
+    a, b, c, d = vectors(cx, ["a", "b", "c", "d"])
+    v, bits = cx.call(f, a, b, c, d)
+    cx.prove("bits_range", bool(1 <= int(bits) <= 15))
+    ys = [a, b, c, d]
+    # exact-ish oracle by KKT: v.y_i >= v.v for all i and v in the hull of the subset
+    kkt(cx, v, ys, bits)
+    sub = [ys[i] for i in range(4) if int(bits) & (1 << i)]
+    import numpy as _np
+    A = _np.array(sub).T
+    if int(bits) == 15:
+        lam, res, rk, sv = _np.linalg.lstsq(_np.vstack([A, _np.ones(len(sub))]), _np.append(_np.zeros(3), 1.0), rcond=None)
+        sc = max(1.0, float(_np.max(_np.abs(A))))
+        if rk == 4:
+            cx.prove("origin_inside_weights_nonneg", CB(float(-_np.min(lam))), tol=1e-7)
+    else:
+        lam, res, rk, sv = _np.linalg.lstsq(_np.vstack([A, _np.ones(len(sub))]), _np.append(_np.asarray(v, dtype=float), 1.0), rcond=None)
+        sc = max(1.0, float(_np.max(_np.abs(A))))
+        recon = A @ lam
+        cx.prove("point_in_affine_hull_of_subset", CB(float(_np.linalg.norm(recon - _np.asarray(v, dtype=float))) / sc), tol=1e-7)
